@@ -329,6 +329,11 @@ func encCorr(c *ctx, val interface{}, nm map[string]string, bs []byte, h *hval) 
 	c.corr("enc "+nameMapStr(nm)+" "+gvalString(val, order), "ok "+hx(bs))
 }
 
+func safeExtract2(v interface{}) (tm map[string]reflect.Type, nm map[string]string) {
+	guard(func() error { tm, nm = hessian.ExtractTypeNameMap(v); return nil })
+	return
+}
+
 func runC02(c *ctx) {
 	if rp, ok := c.extra["replay"].(string); ok {
 		in := loadReplay(rp)
@@ -340,6 +345,17 @@ func runC02(c *ctx) {
 			}
 		}
 		return
+	}
+	// every zoo type once under OTHER registered names first: what a class is called belongs to the
+	// name map of the call, nothing about it may outlive the call
+	for ti, t := range zooTypes {
+		v := genValue(t, c.seed*71+uint64(ti), 40, 20)
+		_, nm := safeExtract2(v)
+		alt := map[string]string{}
+		for k, w := range nm {
+			alt[k] = w + "Alt"
+		}
+		guard(func() error { _, err := hessian.ToBytes(v, alt); return err })
 	}
 	c02Names(c)
 	c.rule = "the C01 generator over every zoo type (incl. custom class names via HessianCodecName, 21-class messages, shared pointers in Outer/Holder/Node); every emitted message is parsed by the reference parser (Go mirror of Coq hparse, cross-checked case by case) and matched, in wire order, against the Go value: class names, lower-cased field names in declaration order, list type names and true counts, back-reference ordinals. Distinct by (type, seed); non-trivial = contains a container or struct."
